@@ -129,6 +129,16 @@ class _Rig:
         self.history.append(o)
         return o
 
+    def drain(self):
+        """retrieve everything that is queued (snapshots)"""
+        out = []
+        while True:
+            p = self.h.get_next_packet()
+            if p is None:
+                break
+            out.append(copy.deepcopy(p.pdu))
+        return out
+
     def sm(self, packet=None, drain=True, label=None):
         o = self._begin(label or ("sm", None if packet is None else pdu_kind(packet)))
         try:
